@@ -116,6 +116,35 @@ def check(ctx):
     ctx.require_min('C07.W5', 6)
 
 
+def loop_form_predicate(ctx, wf, n):
+    """`while(!pred()) cv.wait(lock);` is the expansion of the predicate overload. Recognised when the plain wait sits in a loop whose
+    test has one edge into the loop (towards the wait) and one out of it, and the function is left only over that exit edge; returns the
+    canonical formula of the exit condition, or None (a loop of another shape is reported as analysis-broken by the caller's rules)."""
+    from .listrules import edge_dominates
+    wpos = wf.pos(n)
+    if not wf.block_reaches(wpos[0], wpos[0]):
+        return None
+    for bid, blk in wf.blocks.items():
+        c = blk.get('cond')
+        if not c or len(blk['succ']) != 2 or blk['succ'][0] is None or blk['succ'][1] is None:
+            continue
+        t_in = blk['succ'][0] == wpos[0] or wf.block_reaches(blk['succ'][0], wpos[0])
+        f_in = blk['succ'][1] == wpos[0] or wf.block_reaches(blk['succ'][1], wpos[0])
+        if t_in == f_in or not wf.block_reaches(wpos[0], bid):
+            continue
+        exit_edge = 'false' if t_in else 'true'
+        if not edge_dominates(wf, bid, exit_edge, (wf.exit, 0)):
+            continue
+        try:
+            fm = F.boolexpr(wf, c, {}, True)
+        except F.Unsupported as e:
+            ctx.broken_later('C07.W2: cannot extract the loop test around the wait in %s: %s' % (wf.skey, e))
+            return None
+        return canon_formula(fm if exit_edge == 'true' else ('not', fm))
+    ctx.broken_later('C07.W1: %s waits inside a loop of a shape the rule does not model' % wf.skey)
+    return None
+
+
 def check_tu(ctx, tu):
     scope_cache = {}
 
@@ -147,7 +176,11 @@ def check_tu(ctx, tu):
                 need = 2 if cal['name'] == 'wait' else 3
                 objp = path(wf, wf.call_obj(n))
                 cv_fields.add(last_field(objp))
-                ctx.ob('C07.W1', wf, 'predicate overload of %s is used' % cal['name'], len(args) == need,
+                loop_pred = None
+                if len(args) != need and cal['name'] == 'wait':
+                    loop_pred = loop_form_predicate(ctx, wf, n)
+                ctx.ob('C07.W1', wf, 'predicate overload of %s is used (or the equivalent re-check loop around a plain wait)' % cal['name'],
+                       len(args) == need or loop_pred is not None,
                        detail='%s called with %d argument(s) at %s: without the predicate a notification sent before the '
                               'thread blocks is lost and spurious wake-ups return early' % (cal['name'], len(args), wf.nloc(n)),
                        where=wf.nloc(n))
@@ -158,9 +191,9 @@ def check_tu(ctx, tu):
                 ctx.ob('C07.W1', wf, 'wait holds a unique_lock on queueListMutex', okm,
                        detail='lock argument at %s is %s' % (wf.nloc(n), 'a lock on ' + pstr(held[0][1]) if held else 'not a held lock'),
                        where=wf.nloc(n))
-                # all paths go through the wait
+                # all paths go through the wait (loop form: through the loop test, which is the predicate)
                 ctx.ob('C07.W5', wf, 'every path of %s passes through the predicate-form wait' % wf.name,
-                       wf.pos_postdominates(wf.pos(n), (wf.entry, 0)), where=wf.nloc(n))
+                       wf.pos_postdominates(wf.pos(n), (wf.entry, 0)) or loop_pred is not None, where=wf.nloc(n))
                 if cal['name'] != 'wait':
                     bad = []
                     for r in wf.return_nodes():
@@ -176,7 +209,17 @@ def check_tu(ctx, tu):
                     ctx.ob('C07.W5', wf, 'waitFor returns exactly the result of the predicate-form wait', not bad,
                            detail='return at %s does not return the wait result' % ', '.join(bad))
                 # predicate
-                if len(args) == need:
+                if loop_pred is not None:
+                    f = loop_pred
+                    pred_formula[wf.clsq] = f
+                    E, C0, N0 = ('atom', 'E'), ('atom', 'C0'), ('atom', 'N0')
+                    ok1, cex1 = implies(f, ('and', ('or', ('not', E), ('not', C0)), N0))
+                    ok2, cex2 = implies(('and', ('not', E), N0), f)
+                    ctx.ob('C07.W2', wf, 'predicate true => queue non-empty (or in dispatch) and notification enabled', ok1,
+                           detail='loop exit condition %s is true under %s' % (F.show(f), cex1), where=wf.nloc(n))
+                    ctx.ob('C07.W2', wf, 'queue list non-empty and notification enabled => predicate true', ok2,
+                           detail='loop exit condition %s is false under %s' % (F.show(f), cex2), where=wf.nloc(n))
+                elif len(args) == need:
                     lam = wf.strip_all_casts(args[-1])
                     # the predicate parameter is taken by value: strip the copy construction
                     while wf.nodes[lam]['cls'] in ('CXXConstructExpr',) and wf.nodes[lam].get('args'):
@@ -227,6 +270,14 @@ def check_tu(ctx, tu):
                     continue
                 if fld == 'queueNotifyCounter':
                     kind = {'--': 'enabling', '++': 'disabling'}.get(how)
+                    if kind is None and (how in ('assign',) or how.startswith('call:') and meth.split('::')[-1] in ('store', 'exchange')):
+                        # the counter counts live DisableQueueNotify objects: each may only add / subtract its own one. Writing back a
+                        # value saved earlier is right for nested lifetimes only - two objects whose lifetimes overlap without nesting
+                        # overwrite each other's contribution (notification enabled while one is alive, or disabled for ever)
+                        ctx.ob('C07.W5', f, 'queueNotifyCounter is changed by increment / decrement only (each object adds and removes exactly its own one)',
+                               False, detail='"%s" at %s writes an absolute value' % (how, f.nloc(w['node'])), where=f.nloc(w['node']),
+                               key_detail='absolute counter write')
+                        kind = 'enabling'
                 elif fld == 'queueEmptyCounter':
                     # part of the wait predicate (through emptyQueue()): only the RAII guard may change it, so that it is back at its
                     # previous value however the processing call ends - a manual ++/-- pair leaves it raised when a listener throws,
